@@ -66,7 +66,12 @@ func mkHistoryLines(g *mkGen, rnd *rand.Rand, n int, runnerSafe bool) []string {
 	for len(res) < n {
 		items := g.line(10, runnerSafe)
 		line := mkLayout{rnd: rnd}.line(items)
-		switch r := rnd.Intn(14); {
+		switch r := rnd.Intn(15); {
+		case r == 14:
+			// the same property written with the same characters and another type, or with another spelling of
+			// the same value: what one line's marker carried says nothing about the next line's
+			line = []string{"[pause=2/]", "[pause=2.0/]", `[pause="2"/]`, "[a p=true/]", `[a p="true"/]`, "[a p=1/]", "[a p=1.0/]", "[a p=TRUE/]",
+				`[pause=2 q="x"/]`, "[pause=2 q=x/]", "[pause=02/]"}[rnd.Intn(11)] + []string{" wait", "", " [b]x[/b]"}[rnd.Intn(3)]
 		case r >= 12:
 			// markers whose contents are read as raw text up to their close marker, of every
 			// name (what the parser keeps from one such marker must not reach the next one)
@@ -544,6 +549,27 @@ func markupHistory(m map[string]string) error {
 			ls := mkHistoryLines(g, rnd, 8, true)
 			sc := mkScenario{pre: ls[0 : 1+rnd.Intn(2)], tail: ls[2 : 3+rnd.Intn(2)],
 				bodies: [][]string{ls[4 : 5+rnd.Intn(2)], ls[6 : 6+rnd.Intn(3)], {}}}
+			if i == 2 {
+				// scale: hundreds of distinct texts on one runner, then all of them again (whatever the runner
+				// or its parser remembers about lines it has seen has been filled and emptied several times)
+				var many []string
+				for k := 0; k < 200; k++ {
+					many = append(many, fmt.Sprintf("%s w%d", ls[k%len(ls)], k))
+				}
+				sc = mkScenario{pre: many, tail: ls[2:3], bodies: [][]string{{}, {}, {}}}
+			}
+			if rnd.Intn(2) == 0 {
+				// marked-up option texts (lines of the same pool, so they also occur as lines)
+				withOpts := sc
+				withOpts.optTexts = []string{ls[1], ls[3], ls[5]}
+				parses := true // (an option whose markup fails makes the whole group fail)
+				for _, t := range withOpts.optTexts {
+					parses = parses && mkParse(&markup.LineParser{}, t).Outcome == "result"
+				}
+				if parses && withOpts.frontEndKeeps(withOpts.script()) {
+					sc = withOpts
+				}
+			}
 			script := sc.script()
 			if !sc.frontEndKeeps(script) {
 				nRunnerSkipped++
